@@ -5,6 +5,7 @@ import P9Model.Driver.KQid
 import P9Model.Driver.K4
 import P9Model.Driver.K19
 import P9Model.Driver.KCS
+import P9Model.Driver.KMux
 /-!
 Line-protocol driver: reads `<mode> key=value …` lines on stdin, prints the model's
 prediction for each on stdout (one line per line). Core library only (compiled `lean_exe`).
@@ -36,6 +37,8 @@ def step (s : DState) (line : String) : DState × String :=
   | some ("kmapc", _) => (s, kmapc toks)
   | some ("k19", _) => (s, k19 toks)
   | some ("kcs", _) => (s, kcs toks)
+  | some ("kpool", _) => (s, kpool toks)
+  | some ("kmux", _) => (s, kmux toks)
   | some ("k4", _) => let (x, o) := k4 s.k4 toks; ({ s with k4 := x }, o)
   | some ("k4new", _) => let (x, o) := k4new toks; ({ s with k4 := x }, o)
   | some ("k4stop", _) => let (x, o) := k4stop s.k4 toks; ({ s with k4 := x }, o)
